@@ -53,7 +53,7 @@ FirstDev(devs, e) ==
 KindWrites(kind, item) ==
   CASE kind = "empty" -> {}
     [] kind = "list" -> {"exec"}
-    [] kind = "unknown" -> {"exec"}
+    [] kind = "unknown" -> {"exec", "name", "quote"}       \* dropped, or treated like the name it spells (see UnknownAsName)
     [] kind = "quoted" -> {"exec", "name", "quote"}
     [] kind = "bound" -> {"exec"}
     [] kind = "free" -> {"exec", "name"}
@@ -65,6 +65,13 @@ FrameJudge(e, pre, sr) ==
   THEN SetAsSeq(FrameViolations(pre.exec[1].v, PopN(pre, "exec", 1), e.post, sr.res.fired))
   ELSE SetAsSeq({f \in AllFields \ KindWrites(sr.kind, IF pre.exec = <<>> THEN EmptyList ELSE pre.exec[1]) : e.post[f] # pre[f]})
 
+\* an instruction item whose name the running instruction set does not know (no parser produces one for the set it is run
+\* with): the implementation drops it; treating it like the name it spells is as good (no property speaks of it)
+UnknownAsName(s) ==
+  LET t == s.exec[1]  r == PopN(s, "exec", 1) IN
+  IF s.quote THEN Fired([PushOn(r, "name", t.v) EXCEPT !.quote = FALSE])
+  ELSE IF t.v \in DOMAIN s.bind THEN Fired(PushOn(r, "exec", s.bind[t.v]))
+  ELSE Fired(PushOn(r, "name", t.v))
 JudgeStep(e, pre) ==
   LET sr   == Step(pre)
       subj == Subject(pre, e.act)
@@ -72,7 +79,8 @@ JudgeStep(e, pre) ==
       \* operands it has consumed (C10: "may at most have consumed operands it had already taken"): any post-state
       \* within the unfired clause of the frame condition is accepted, not only the one the implementation produces today
       lax  == sr.kind = "instr" /\ ~sr.res.fired /\ ~Crashed(e) /\ FrameOK(pre.exec[1].v, PopN(pre, "exec", 1), e.post, FALSE)
-      alts == IF sr.kind = "instr" THEN AltRand(pre.exec[1].v, PopN(pre, "exec", 1)) ELSE <<>>
+      alts == IF sr.kind = "instr" THEN AltRand(pre.exec[1].v, PopN(pre, "exec", 1))
+              ELSE IF sr.kind = "unknown" THEN <<UnknownAsName(pre)>> ELSE <<>>
       ok   == ~Crashed(e) /\ (Matches(sr.res, e.post) \/ lax \/ \E k \in 1..Len(alts) : Matches(alts[k], e.post)) /\ e.ret = sr.done
       dev  == IF ok THEN "" ELSE FirstDev(DevStep(pre), e)
   IN [v |-> IF ok THEN "ok" ELSE IF dev # "" THEN "dev" ELSE IF Crashed(e) THEN "crash" ELSE "mismatch",
